@@ -228,6 +228,7 @@ func (p *Parser) parseBuffer(buf []byte, last bool) error {
 		case skipNewline:
 			p.line++
 			p.noff = off
+			i = 0
 			for i, b = range buf[off+1:] {
 				if spaceMap[b] != skipChar {
 					break
@@ -487,6 +488,7 @@ func (p *Parser) parseBuffer(buf []byte, last bool) error {
 			p.line++
 			p.noff = off
 			p.mode = afterMap
+			i = 0
 			for i, b = range buf[off+1:] {
 				if spaceMap[b] != skipChar {
 					break
